@@ -31,6 +31,8 @@ def main():
     for a in sys.argv[3:]:
         if a.startswith("--jobs="):
             jobs = int(a.split("=", 1)[1])
+        elif a.startswith("--ops="):
+            M.OPS["set"] = int(a.split("=", 1)[1])
     todo = []
     for l in open(src):
         r = json.loads(l)
